@@ -25,8 +25,11 @@ func init() {
 			for _, k := range []int{6, 8, 26} {
 				is = append(is, mk("operated", "VerifC15Neighbours", cs("kind", k)))
 			}
-			for side := 0; side <= 1; side++ {
+			for side := 0; side <= 2; side++ {
 				for arr := 0; arr <= 2; arr++ {
+					if side == 2 && arr == 2 {
+						continue
+					}
 					is = append(is, mk("detector", "VerifC15OverlapExt", cs("side", side, "arr", arr)), mk("detector", "VerifC15OverlapSpatial", cs("side", side, "arr", arr)))
 				}
 			}
